@@ -701,11 +701,17 @@ def gen_fn_trace(b):
         r = rng.random()
         ntr = n // 2
         if r < 0.5:
-            tr = b.add({"kind": "index", "n": n, "k": ntr, "seed": _seed(rng)}, "index_list")
+            tr = b.add({"kind": "index", "n": n, "k": ntr, "seed": _seed(rng), "negative": rng.random() < 0.2}, "index_list")
             a["train_idx"] = {"$h": tr} if rng.random() < 0.5 else {"$pylist": tr}
             if rng.random() < 0.5:
-                te = b.add({"kind": "index", "n": n, "k": rng.randint(2, n // 2), "seed": _seed(rng)}, "index_list")
+                te = b.add({"kind": "index", "n": n, "k": rng.randint(2, n // 2), "seed": _seed(rng), "negative": rng.random() < 0.2}, "index_list")
                 a["test_idx"] = {"$h": te} if rng.random() < 0.5 else {"$pylist": te}
+        elif r < 0.65:
+            # only the test set is given; the training set is its complement
+            kte = rng.randint(2, n // 2)
+            te = b.add({"kind": "index", "n": n, "k": kte, "seed": _seed(rng), "negative": rng.random() < 0.3}, "index_list")
+            a["test_idx"] = {"$h": te} if rng.random() < 0.6 else {"$pylist": te}
+            ntr = n - kte
         else:
             ntr = n // 2
         if "local" in fn:
